@@ -812,8 +812,14 @@ def resolveLoop (env : Bytes → Var) : Nat → Bytes → Var → Bytes × Var
 def resolve (env : Bytes → Var) (v : Var) : Bytes × Var :=
   resolveLoop env maxNameRefDepth [] v
 
+/-- How the callers use it (`Runner.cmd`, `assignVal`, `unsetElem`, `paramExp`):
+    `if n, v := prev.Resolve(env); n != "" { name, prev = n, v }` — with an empty resolved name the
+    *unresolved* variable is kept. -/
+def prevFor (env : Bytes → Var) (v : Var) : Var :=
+  if (resolve env v).1 ≠ [] then (resolve env v).2 else v
+
 /-- The `switch prev.Kind` of `Runner.assignVal` for an appending array assignment `a+=(…)`: its
-    `default:` branch is `panic("unexpected conversion of kind %d")`.  `prev` is a `Resolve` result. -/
+    `default:` branch is `panic("unexpected conversion of kind %d")`.  `prev` is `prevFor env v`. -/
 def appendKind : VKind → Res Unit
   | .unknown | .string | .indexed | .assoc => .ok ()
   | .nameRef | .keepValue => .panic
